@@ -396,6 +396,7 @@ func (p *specParser) parsePrimary() SExpr {
 // Contract files
 
 type Clause struct {
+	Case  string // asserts@<case text>: only at returns inside that switch arm
 	Label string
 	Src   string
 	Expr  SExpr
@@ -414,6 +415,9 @@ type FuncContract struct {
 	Ensures   []Clause
 	Asserts   []Clause // checked at every return of the body (may mention locals); never assumed by callers
 	Assumes   []Clause // assumed at entry of the body without being a caller obligation (listed in the evidence)
+	At        map[string][]Clause // assertions at call sites, keyed by the normalised source text of the call
+	Propagates bool               // every error returned by a callee must make this function return an error
+	NoProp    []string            // call texts (prefixes) whose error is deliberately discarded
 	Trusts    []Clause // postconditions assumed by callers but NOT checked against the body (listed as assumptions)
 	PostDefs  []Clause // spec-function definitions instantiated at the results (assumed at every return)
 	Decreases *Clause
@@ -539,6 +543,10 @@ func (c *Contracts) loadFile(path string, pkgName string) error {
 		if i := strings.IndexAny(t, " \t"); i >= 0 {
 			word, rest = t[:i], strings.TrimSpace(t[i+1:])
 		}
+		if strings.HasPrefix(word, "asserts@") {
+			rest = word[len("asserts"):] + " " + rest
+			word = "asserts"
+		}
 		switch word {
 		case "func":
 			key := rest
@@ -581,14 +589,50 @@ func (c *Contracts) loadFile(path string, pkgName string) error {
 			}
 			cur.Trusts = append(cur.Trusts, cl)
 			c.Assumes = append(c.Assumes, fmt.Sprintf("%s (trusted postcondition): %s", cur.Key, rest))
+		case "at":
+			// at "<call text>" label: expr
+			if cur == nil || !strings.HasPrefix(rest, "\"") {
+				return fmt.Errorf("%s:%d: at \"call text\" label: expr", path, j.line)
+			}
+			q := strings.Index(rest[1:], "\"")
+			if q < 0 {
+				return fmt.Errorf("%s:%d: unterminated call text", path, j.line)
+			}
+			key := strings.Join(strings.Fields(rest[1:1+q]), "")
+			cl, err := mkClause(strings.TrimSpace(rest[q+2:]), j.line)
+			if err != nil {
+				return err
+			}
+			if cur.At == nil {
+				cur.At = map[string][]Clause{}
+			}
+			cur.At[key] = append(cur.At[key], cl)
+		case "propagates":
+			cur.Propagates = true
+			for _, x := range strings.Split(rest, ",") {
+				if x = strings.Join(strings.Fields(x), ""); x != "" && x != "except" {
+					cur.NoProp = append(cur.NoProp, strings.TrimPrefix(x, "except"))
+				}
+			}
 		case "requires", "ensures", "decreases", "asserts":
 			if cur == nil {
 				return fmt.Errorf("%s:%d: clause outside func", path, j.line)
+			}
+			caseText := ""
+			if word == "asserts" && strings.HasPrefix(rest, "@") {
+				// asserts @<case text> label: expr   (the case text has no blanks)
+				sp := strings.IndexAny(rest, " \t")
+				if sp < 0 {
+					return fmt.Errorf("%s:%d: bad asserts@", path, j.line)
+				}
+				caseText = rest[1:sp]
+				rest = strings.TrimSpace(rest[sp+1:])
 			}
 			cl, err := mkClause(rest, j.line)
 			if err != nil {
 				return err
 			}
+			cl.Case = caseText
 			switch word {
 			case "requires":
 				cur.Requires = append(cur.Requires, cl)
